@@ -1,16 +1,90 @@
 """C04 — simulation-based check (real executor code on the simulated kernel) + monitors."""
 from checks import simcommon as S
 
-FAMILIES = ['plain', 'full', 'timeout', 'shutdown', 'callback']
+FAMILIES = ['plain', 'full', 'timeout', 'shutdown', 'callback', 'excs']
 PER_FAMILY = (300, 6000)
 
 
-PROOF = dict(prop_file='Props/C04.v', gen=['Worker', 'Flow', 'Pool', 'LockOrder'], theorems=['C04_one_future_per_step', 'C04_slots_conserved', 'C04_slots_invariant', 'C04_token_unique', 'C04_worker_contains_task_failures', 'C04_worker_sends_nothing_without_an_item', 'C04_token_flow_follows_the_source', 'C04_callbacks_run_outside_the_locks'], tf_families=['plain', 'full', 'timeout', 'shutdown'], tf_per_family=(100, 1500),
+PROOF = dict(prop_file='Props/C04.v', gen=['Worker', 'Flow', 'Pool', 'LockOrder'], theorems=['C04_one_future_per_step', 'C04_slots_conserved', 'C04_slots_invariant', 'C04_token_unique', 'C04_worker_contains_task_failures', 'C04_worker_sends_nothing_without_an_item', 'C04_token_flow_follows_the_source', 'C04_callbacks_run_outside_the_locks', 'C04_exception_transport'], tf_families=['plain', 'full', 'timeout', 'shutdown'], tf_per_family=(100, 1500),
              note="exception types / __cause__ of the failed future and the 'pool stays unbroken' clause are decided by the simulation monitors, not by a theorem")
 
 
+class ZooStateful(Exception):
+    def __init__(self, code, detail):
+        super().__init__(f"failed with {code}")
+        self.code, self.detail = code, detail
+
+    def __reduce__(self):
+        return (ZooStateful, (self.code, self.detail))
+
+
+class ZooDictState(Exception):
+    pass
+
+
+def transport_zoo(ctx):
+    """_ExceptionWithTraceback round trip (the way a task's exception reaches the parent) for exceptions that are not type(e)(*e.args):
+    the arrival must equal a plain pickle round trip of the instance in type, args and attributes, and carry the remote traceback"""
+    import json, pickle, subprocess, sys
+    import vlib
+    if sys.path[0] != vlib.REPO:
+        sys.path.insert(0, vlib.REPO)
+    import loky.process_executor as pe
+
+    def make():
+        out = []
+        def add(fn):
+            try:
+                fn()
+            except BaseException as e:  # noqa
+                out.append(e)
+        add(lambda: json.loads('{"a": '))
+        add(lambda: open("/nonexistent/zoo/file"))
+        add(lambda: (_ for _ in ()).throw(ZooStateful(7, ["d", 1])))
+        def dict_state():
+            e = ZooDictState("msg", 2); e.extra = {"k": (1, 2)}; raise e
+        add(dict_state)
+        add(lambda: (_ for _ in ()).throw(ImportError("no module", name="modname", path="/p")))
+        add(lambda: b"\xff".decode("utf-8"))
+        add(lambda: (_ for _ in ()).throw(subprocess.CalledProcessError(3, ["cmd", "x"], output=b"o", stderr=b"e")))
+        add(lambda: (_ for _ in ()).throw(SystemExit(3)))
+        add(lambda: (_ for _ in ()).throw(KeyboardInterrupt()))
+        add(lambda: (_ for _ in ()).throw(KeyError("k")))
+        add(lambda: (_ for _ in ()).throw(StopIteration(5)))
+        add(lambda: (_ for _ in ()).throw(ExceptionGroup("grp", [ValueError(1), TypeError("t")])))
+        add(lambda: 1 / 0)
+        return out
+
+    def view(e):
+        d = {k: repr(v) for k, v in sorted(vars(e).items())} if hasattr(e, "__dict__") else {}
+        special = {a: repr(getattr(e, a)) for a in ("errno", "filename", "name", "path", "pos", "doc", "lineno", "colno", "returncode", "cmd", "output",
+                                                    "stderr", "code", "value", "object", "start", "end", "reason", "encoding", "exceptions", "message")
+                   if hasattr(e, a)}
+        return (type(e).__module__ + "." + type(e).__qualname__, repr(e.args), d, special)
+    bad, n = [], 0
+    for e in make():
+        n += 1
+        try:
+            base = pickle.loads(pickle.dumps(e))
+            got = pickle.loads(pickle.dumps(pe._ExceptionWithTraceback(e)))
+        except BaseException as ex:  # noqa
+            bad.append({"exception": repr(e)[:80], "transport_raised": repr(ex)[:160]})
+            continue
+        if view(got) != view(base):
+            bad.append({"exception": repr(e)[:80], "arrived": str(view(got))[:300], "plain_pickle_round_trip": str(view(base))[:300]})
+        elif not isinstance(got.__cause__, pe._RemoteTraceback) or "Traceback" not in str(got.__cause__):
+            bad.append({"exception": repr(e)[:80], "cause": repr(got.__cause__)[:120]})
+    return {"exceptions": n, "deviations": bad}
+
+
 def run(ctx):
-    return S.sim_check(ctx, FAMILIES, FAMILIES, PER_FAMILY, S.SIM_ASSUME, proof=PROOF)
+    import vlib
+    z = transport_zoo(ctx)
+    if z["deviations"]:
+        rp = vlib.write_replay(ctx, "transport", {"kind": "a task's exception does not reach the parent as it was raised", "detail": z})
+        ctx.violations.append((f"exception transport: {len(z['deviations'])} of {z['exceptions']} exceptions arrive changed or break the transport: "
+                               + str(z["deviations"][0])[:180], rp, False))
+    return S.sim_check(ctx, FAMILIES, FAMILIES, PER_FAMILY, S.SIM_ASSUME, proof=PROOF, extra_cov={"exception_transport_zoo": z})
 
 
 def replay(ctx, path):
